@@ -14,9 +14,16 @@ from vlib import common, report, flow
 ASSUME = {
     "C03": [
         "IEEE-754 binary32/binary64 arithmetic of the hardware is exact on representable integers; std::fmod is exact; "
-        "floor(u3/v3) in the floating extended_euclid equals the exact floor quotient (operands below 2^mantissa)",
-        "ModularExtended (FMA / Dekker error-free transformations), Modular<rint<K>>, Modular<Log16> and inv/div/isUnit of the RecInt- and "
-        "Integer-backed rings are tied to the exact specification by correspondence only (no Lean model): RecInt and GMP are below the ring",
+        "floor(u3/v3) in the floating extended_euclid equals the exact floor quotient (operands are integers below 2^mantissa: the rounded quotient "
+        "of two such integers has the same floor)",
+        "RecInt add/sub/mul/addmul/lmul/div/mod_n are taken by their contracts over Z (arithmetic modulo 2^(2^K), lmul exact, mod_n the non-negative "
+        "remainder): C06; GMP below Modular<Integer>: C01/C02",
+        "ModularBalanced<int32_t|int64_t> mul/axpy/axmy and ModularExtended mul: theorems hold for every quotient estimate within the stated distance of the "
+        "true quotient (and, for ModularExtended, a rounded product within 2^(mant-4) of the product: the FMA contract); that the IEEE double/float "
+        "operations produce such estimates is tied by correspondence with a soft-float (round-to-nearest-even) model in both build configurations; "
+        "the Dekker/Veltkamp path of ModularExtended (no FMA) is tied by correspondence only",
+        "Modular<Log16>: theorems for any generator chain satisfying L16.Valid; that the constructor's search produces a valid chain for a prime p is tied by "
+        "correspondence at the representation level (raw_* lines: generator, raw operands and raw result against the table model)",
         "the harness converts elements to integers itself (casts, mpz import/export of ruint limbs through RecInt::ruint_to_mpz)",
     ],
     "C04": [
@@ -32,7 +39,9 @@ ASSUME = {
 RULE = {
     "C03": "per ring: moduli = min..min+2, max-2..max (as reported by the running code), largest prime <= max, max/2, sqrt(max)+-1, "
            "powers of two +-1, small composites/primes, random; operands = 0,1,2,m-1,m-2,floor(m/2),floor(m/2)+-1,sqrt(m),random mapped to the "
-           "canonical range; every pair for binary, corner triples for ternary operations; non-trivial = some operand outside {0,1}",
+           "canonical range; every pair for binary, corner triples for ternary operations; random histories (programs of up to 16/48 API calls over "
+           "4 registers, sources may coincide, the destination never aliases a source); representation-level lines for the log-table ring; "
+           "non-trivial = some operand outside {0,1}",
     "C04": "per ring x source type: limits of the source type, +-2^k+-1 (k up to 999 for double/Integer), values around m, 2m, m^2, negatives, random of "
            "random magnitude (floating sources: exactly representable integers only); convert on the operand grid; constants per modulus",
 }
